@@ -6,6 +6,7 @@ import (
 	"github.com/go-shiori/dom"
 	"github.com/markusmobius/go-domdistiller/internal/converter"
 	"github.com/markusmobius/go-domdistiller/internal/domutil"
+	"github.com/markusmobius/go-domdistiller/internal/stringutil"
 	"github.com/markusmobius/go-domdistiller/internal/webdoc"
 	vx "github.com/markusmobius/go-domdistiller/internal/zzverif"
 	"golang.org/x/net/html"
@@ -31,6 +32,7 @@ var c09Blocks = []string{
 	`<img src="i3.png" srcset="/w_300,h_200/x.jpg 1x, /w_600,h_400/x.jpg 2x">`,
 	`<table><tr><td>cellx</td><td>celly</td></tr><tr><td><p>cellp</p></td><td>cellq</td></tr></table>`,
 	`<p>H<sub>2</sub>O is w<b>at</b>er, <span>D</span>rop cap</p>`,
+	`<img src="https://c.t/fotos/münchen-straße.jpg" srcset="https://c.t/f/größe.jpg 2x"><img src="/rel/ä b.png">`,
 }
 
 // c09Srcset is the harness's own reading of a srcset attribute (the library's
@@ -178,4 +180,31 @@ func HarnessC09WordCount() {
 		}
 	}
 	vx.Assert(wc == sum, "WordCount is not the number of words in the distilled text")
+}
+
+// HarnessC09Counters: WordCount against the words of the distilled text for
+// pages in several scripts and with several lang declarations. The extractor
+// chooses its own word counter here (nothing is stubbed); the reference counts
+// the distilled text with the counter that the scripts present in the page
+// call for, whatever the markup declares.
+func HarnessC09Counters() {
+	lang := []string{"", ` lang="en"`, ` lang="ko"`, ` lang="zh-CN"`, ` lang="EN-us" xml:lang="en"`}[vx.Choose("lang", 5)]
+	latin := "plenty of plain words make this paragraph long enough to be kept as content of the page by the classifier, and a few more words follow here. "
+	body := []string{
+		latin + latin,
+		latin + "한국어 단어 몇 개가 여기에 있습니다 그리고 더 많은 단어들 " + latin,
+		latin + "这是一些中文文字用来测试字数统计的功能是否正确 " + latin,
+		"한국어 단어 몇 개가 여기에 있습니다 그리고 더 많은 단어들이 이 문단에 충분히 들어 있습니다 " + latin + "日本語のテキストもここにあります ",
+	}[vx.Choose("script", 4)]
+	page := "<html" + lang + "><head></head><body><div><p>" + body + "</p><p>" + body + "</p></div></body></html>"
+	doc := vx.ParseHTML(page)
+	root := dom.QuerySelector(doc, "html")
+	ref := stringutil.SelectWordCounter(dom.TextContent(root))
+	ce := NewContentExtractor(root, nil, nil)
+	wd, wc := ce.ExtractContent()
+	text := wd.GenerateOutput(true)
+	if strings.TrimSpace(text) != "" {
+		vx.Cover("kept")
+	}
+	vx.Assert(wc == ref.Count(text), "WordCount is not the number of words in the distilled text (counted as the scripts of the page require)")
 }
